@@ -3,6 +3,8 @@
 Exhaustive over (rule, qualname) x spellings; contexts sampled in quick, exhaustive in thorough.
 Oracle = generator knowledge (which rule, which line) ; correspondence = Lean model vs real bandit."""
 import common as C
+import metamorph
+import scopegen
 
 LEVEL = "proof"
 
@@ -74,6 +76,8 @@ def call_near_misses(q):
     if len(parts) == 1:
         out.append(("suffix", "", q + "x"))
         out.append(("attr_of_obj", "", "obj." + q))
+        out.append(("case_changed", "", q.swapcase()))
+        out.append(("prefix_underscore", "", "_" + q))
         return out
     mod, f = ".".join(parts[:-1]), parts[-1]
     out.append(("suffix", f"import {mod}\n", q + "x"))
@@ -83,6 +87,15 @@ def call_near_misses(q):
     out.append(("computed_callee", f"import {mod}\n", f"get({mod})." + f + "(1).other"))
     out.append(("subscript_root", f"import {mod}\n", f"tbl[0].{f}"))
     out.append(("shadow_alias", f"import {mod} as other_name\n", f"unrelated.{f}"))
+    # a different identifier that only *looks* like the table name (seeded change C01-m8: the names were joined into an unescaped regex, so
+    # `.` matched any character): every dot replaced by `_`, one dot replaced, a character dropped, doubled, or changed in case
+    out.append(("dots_to_underscore", "", q.replace(".", "_")))
+    if len(parts) >= 3:
+        out.append(("one_dot_to_underscore", f"import {parts[0]}\n", parts[0] + "." + "_".join(parts[1:])))
+        out.append(("first_dot_to_underscore", "", parts[0] + "_" + ".".join(parts[1:])))
+    out.append(("char_dropped", f"import {mod}\n", mod + "." + (f[:-1] if len(f) > 1 else f + "_")))
+    out.append(("case_changed", f"import {mod}\n", mod + "." + f.swapcase()))
+    out.append(("char_doubled", f"import {mod}\n", mod + "." + f + f[-1]))
     return out
 
 
@@ -106,10 +119,18 @@ def import_spellings(q):
 
 
 def import_near_misses(q):
-    return [("suffix", f"import {q}x\n", "string-prefix"), ("prefix", f"import x{q}\n", None),
-            ("suffix_from", f"from {q}x import a\n", "string-prefix"), ("dunder_suffix", f"__import__('{q}x')\n", None),
-            ("dunder_nonliteral", f"__import__({q.replace('.', '_')})\n", None),
-            ("attr_only", f"x = obj.{q}\n", None)]
+    out = [("suffix", f"import {q}x\n", "string-prefix"), ("prefix", f"import x{q}\n", None),
+           ("suffix_from", f"from {q}x import a\n", "string-prefix"), ("dunder_suffix", f"__import__('{q}x')\n", None),
+           ("dunder_nonliteral", f"__import__({q.replace('.', '_')})\n", None),
+           ("attr_only", f"x = obj.{q}\n", None),
+           ("import_case_changed", f"import {q.swapcase()}\n", None)]
+    if "." in q:
+        # C01-m8: `.` of a table name matched any character
+        u = q.replace(".", "_")
+        out += [("dunder_dots_to_underscore", f"__import__('{u}')\n", None),
+                ("import_module_dots_to_underscore", f"import importlib\nimportlib.import_module('{u}')\n", None),
+                ("import_dots_to_underscore", f"import {u}\n", None)]
+    return out
 
 
 def rules_tables():
@@ -117,7 +138,7 @@ def rules_tables():
     return extension_loader.MANAGER.blacklist
 
 
-def run(res, ctx):
+def _run_main(res, ctx):
     tabs = rules_tables()
     call_rules = [r for r in tabs.get("Call", [])]
     import_rules = [r for r in tabs.get("Import", [])]
@@ -134,6 +155,7 @@ def run(res, ctx):
     def qual_owner(q, rules):
         return [r for r in rules if q in r["qualnames"]]
 
+    all_call_q = {qq for rr in call_rules for qq in rr["qualnames"]}
     # ---- calls
     for r in call_rules:
         if r["id"] in import_ids:
@@ -169,7 +191,21 @@ def run(res, ctx):
                     src = pre2 + f"x = {callee}(a)\n"
                     line = pre2.count("\n") + 1
                     cases.append((src, ("hit", first["id"], first.get("level", "MEDIUM"), line), dict(kind="call", rule=r["id"], q=q, spelling=label + "+shadow", context="after-shadowing-def")))
+            # the binding sits inside a scope, something is defined between it and the use, and the use sits in the same or a sibling scope further
+            # down (seeded change C01-m7: aliases bound in a function were forgotten after a nested class statement)
+            sp_all = call_spellings(q)
+            for label, pre, callee in (sp_all if thorough else rng.sample(sp_all, min(3, len(sp_all)))):
+                if "\n" in pre.rstrip("\n") and not pre.startswith(("import importlib", "import json")):
+                    continue            # multi-statement preludes with their own control flow are placed as they are, above
+                for _ in range(6 if thorough else 3):
+                    bound = callee.split(".")[0]
+                    src, line, lab = scopegen.place(rng, pre, f"x = {callee}(a)", names=(bound, callee.split(".")[-1]))
+                    exp_ = ("hit", first["id"], first.get("level", "MEDIUM"), line) if scopegen.visible(lab) else ("corr-only",)
+                    cases.append((src, exp_,
+                                  dict(kind="call", rule=r["id"], q=q, spelling=label + "+placed", context="placed:" + lab["shape"] + ":" + lab["filler"], placed=lab)))
             for label, pre, callee in call_near_misses(q):
+                if callee in all_call_q or any(callee.startswith(qq + ".") for qq in all_call_q if False):
+                    continue            # the altered spelling happens to be another table entry (pickle.loads -> pickle.load)
                 cname, tmpl, off = rng.choice(CONTEXTS)
                 src = tmpl.format(pre=pre, call=callee + "(a)")
                 cases.append((src, ("miss", pre.count("\n") + 1), dict(kind="call-nearmiss", rule=r["id"], q=q, spelling=label, context=cname)))
@@ -286,3 +322,9 @@ def imported_names(src):
 
 def json_safe(x):
     return x
+
+
+def run(res, ctx):
+    _run_main(res, ctx)
+    # the neighbourhood of every construct of bandit's example files (harness/metamorph.py): model vs implementation on this family's ids
+    metamorph.family(res, ctx, C, C.blacklist_ids(), 700, 4000)
